@@ -48,6 +48,12 @@ fn modulus(m: &Mon, r: &mut Rng) -> Vec<u64> {
             v
         }
         11 => vec![u64::MAX; 1 + r.usize(4)],
+        12 if r.chance(1, 4) => {
+            // odd word counts at twice the multiplication thresholds (24 / 192 words): the cofactor update of the
+            // extended gcd behind inv() multiplies two numbers of half the modulus length
+            let n = *r.pick(&[25usize, 49, 51, 53, 97, 99, 193, 195]);
+            gen::shape(r, n)
+        }
         _ => gen::mag(r, mx),
     };
     if gen::nlimbs(&v) == 0 {
